@@ -477,7 +477,7 @@ void mi_stats_get(size_t stats_size, mi_stats_t* stats) mi_attr_noexcept {
   _mi_memzero(stats, stats_size);
   const size_t size = (stats_size > sizeof(mi_stats_t) ? sizeof(mi_stats_t) : stats_size);
   _mi_memcpy(stats, &_mi_stats_main, size);
-  stats->version = MI_STAT_VERSION;
+  if (stats_size >= sizeof(stats->version)) { stats->version = MI_STAT_VERSION; }  // (don't write beyond a tiny buffer)
 }
 
 
